@@ -26,6 +26,11 @@ structure LInv (F : List String) (st : LinkSt) : Prop where
   addedNotFront : ∀ r, r ∈ st.added → r.name ∉ F
   actBound : ∀ r, r ∈ st.added → isAct r.name → ∃ k, k < st.nAct ∧ r.name = s!"Action{k}"
 
+/-- the invariant does not look at `referenced` -/
+theorem LInv.ref {F : List String} {st : LinkSt} (h : LInv F st) (l : List String) :
+    LInv F { st with referenced := l } :=
+  ⟨h.nodup, h.addedDef, h.frontDef, h.addedNotFront, h.actBound⟩
+
 theorem inv_stub {F : List String} {st : LinkSt} (a : String) (ha : ¬ isAct a) (h : LInv F st) :
     LInv F (if st.defined.contains a then st else
       { st with rulesCount := st.rulesCount + 1, defined := a :: st.defined,
@@ -101,7 +106,7 @@ mutual
       ∀ (e : Expr) (st : LinkSt), (∀ n, n ∈ refsE e → ¬ isAct n) → LInv F st → LInv F (linkE e st).2
     | .act code, st, _, h => by simpa [linkE] using inv_act hF code h
     | .name a, st, hr, h => by
-      have := inv_stub a (hr a (by simp [refsE])) h
+      have := inv_stub a (hr a (by simp [refsE])) (h.ref (a :: st.referenced))
       simp only [linkE]
       split <;> simp_all
     | .push e r, st, hr, h => by
